@@ -473,6 +473,13 @@ def freeze (E : Env) (onlySeal : Bool) : M Obj Unit := fun o =>
 
 /-! ## Array.prototype methods (builtin_array.go), generic over the object operations -/
 
+/-- what `thisObject.get("join")` is -/
+inductive JoinKind where
+  | builtin      -- builtinArrayJoin (the function Array.prototype.join is created with)
+  | user         -- a function of the script
+  | other        -- not callable
+deriving DecidableEq, Repr, Inhabited
+
 /-- what a builtin sees of its `this` object -/
 structure Ops (σ : Type) where
   len : σ → Nat                       -- toUint32(thisObject.get("length"))
@@ -487,6 +494,9 @@ structure Ops (σ : Type) where
   conv : Val → M σ Val                -- an argument to a primitive (Value.number() / Value.string() of an object runs script)
   thisRaw : σ → Val                   -- call.This as passed: `recv` for an object, the primitive itself for a primitive receiver
   locale : Val → List Val → M σ Val   -- obj := toObject(value); obj.get("toLocaleString") (TypeError unless callable) .call(obj, args…)
+  joinGet : M σ JoinKind              -- thisObject.get("join"): which kind of value it is (a getter runs)
+  userJoin : List Val → M σ Val       -- a script function found as `join`, called with call.This as this and the arguments
+  objToString : σ → Val               -- builtinObjectToString(call): "[object " + class + "]"
 
 /-- a value returned by a builtin -/
 inductive Ret where
@@ -663,18 +673,30 @@ def goJoin : List (List Nat) → List Nat → List Nat
   | [a], _ => a
   | a :: r, sep => a ++ sep ++ goJoin r sep
 
-/-- builtinArrayJoin (builtin_array.go:143), on a converted separator -/
-def joinCore (length : Nat) (args : List Val) : M σ Ret := fun s =>
+/-- the string of one element in builtinArrayJoin: "" for empty, undefined and null, otherwise `value.string()` (an object
+    runs its toString) -/
+def joinElem (value : Val) : M σ (List Nat) :=
+  match value with
+  | .undef => pure []
+  | .null => pure []
+  | v => do
+    let p ← O.conv v
+    pure (E.ts p)
+
+/-- one turn of the loop of join / toLocaleString: `value := thisObject.get(arrayIndexToString(index))`, then the
+    element's string is appended to stringList -/
+def collectStep (elem : Val → M σ (List Nat)) (index : Nat) (stringList : List (List Nat)) : M σ (List (List Nat)) := fun s =>
+  (do let x ← elem (O.get s index); pure (stringList ++ [x])) s
+
+/-- builtinArrayJoin (builtin_array.go:143), on a converted separator (the allocation guard `checkDenseLength`,
+    RangeError for length > 1<<24, is not modelled: no request has such a length) -/
+def joinCore (length : Nat) (args : List Val) : M σ Ret :=
   let argument := argAt args 0
   let separator := if argument ≠ .undef then E.ts argument else [44]
-  if length = 0 then .ok (Ret.val (.str [])) s
-  else
-    let stringList := (List.range length).map fun index =>
-      match O.get s index with
-      | .undef => []
-      | .null => []
-      | value => E.ts value
-    .ok (Ret.val (.str (goJoin stringList separator))) s
+  if length = 0 then pure (Ret.val (.str []))
+  else do
+    let stringList ← foldUp (collectStep O (joinElem O E)) 0 length []
+    pure (Ret.val (.str (goJoin stringList separator)))
 
 /-- `length` is read, then the separator converted (`argument.string()`) -/
 def join (args : List Val) : M σ Ret := do
@@ -685,9 +707,15 @@ def join (args : List Val) : M σ Ret := do
     else pure args
   joinCore O E length pargs
 
-/-- builtinArrayToString (builtin_array.go:29): `join.call(call.This, nil, …)` (the case of a non-callable `join`
-    is not modelled) -/
-def toStringM (_args : List Val) : M σ Ret := join O E []
+/-- builtinArrayToString (builtin_array.go:28): `join := thisObject.get("join")`; callable ⇒ `join.call(call.This, nil, …)`
+    — the function found is called, with no arguments, and what it returns is returned —, otherwise
+    builtinObjectToString(call) -/
+def toStringM (_args : List Val) : M σ Ret := do
+  let joinValue ← O.joinGet
+  match joinValue with
+  | .builtin => join O E []
+  | .user => do let v ← O.userJoin []; pure (Ret.val v)
+  | .other => fun s => .ok (Ret.val (O.objToString s)) s
 
 /-- one element of builtinArrayToLocaleString (builtin_array.go:47-59): empty, undefined and null give "", any other
     value `toLocaleString.call(call.runtime, objectValue(obj)).string()` — no arguments are handed on -/
@@ -700,15 +728,11 @@ def localeElem (value : Val) : M σ (List Nat) :=
     let p ← O.conv r          -- Value.string() of an object result runs its toString
     pure (E.ts p)
 
-/-- one turn of the loop: `value := thisObject.get(arrayIndexToString(index))`, then the element's string is appended -/
-def localeStep (index : Nat) (stringList : List (List Nat)) : M σ (List (List Nat)) := fun s =>
-  (do let x ← localeElem O E (O.get s index); pure (stringList ++ [x])) s
-
 /-- builtinArrayToLocaleString (builtin_array.go:38), the separator is "," -/
 def toLocaleStringCore (length : Nat) : M σ Ret :=
   if length = 0 then pure (Ret.val (.str []))
   else do
-    let stringList ← foldUp (localeStep O E) 0 length []
+    let stringList ← foldUp (collectStep O (localeElem O E)) 0 length []
     pure (Ret.val (.str (goJoin stringList [44])))
 
 def toLocaleStringM (_args : List Val) : M σ Ret := do
@@ -1018,6 +1042,9 @@ structure St where
   script : List Conv := []          -- scripted conversions, consumed in order by whichever object is converted next
   lenPrim : Option Val := none      -- the primitive an object-valued `length` was converted to by `lenRead`
   thisRaw : Val := .recv            -- the `this` value of the call: the receiver object, or the primitive it was made from
+  joinGetter : Bool := false        -- `join` of the receiver is an accessor property (its getter logs `G,<this>`)
+  joinKind : JoinKind := .builtin   -- the value `join` has / the getter returns
+  cls : List Nat := [65, 114, 114, 97, 121]   -- [[Class]] of the receiver object ("Array")
 deriving Repr, Inhabited
 
 def liftObj {α : Type} (m : M Obj α) : M St α := fun s =>
@@ -1115,6 +1142,16 @@ def scriptedLocale (putF : Key → Val → Bool → M Obj Unit) (delF : Key → 
     else leafLocale putF delF lenOf E v args
   | _ => leafLocale putF delF lenOf E v args
 
+/-- the getter of an accessor `join` logs `G,<this>`; then the value -/
+def scriptedJoinGet : M St JoinKind := fun s =>
+  if s.joinGetter then .ok s.joinKind { s with log := [.str [71], .recv] :: s.log } else .ok s.joinKind s
+
+/-- what the script's join function logs: `J`, its this, arguments.length, the arguments -/
+def joinEntry (args : List Val) : List Val := [.str [74], .recv, .int args.length] ++ args
+
+/-- "[object " + class + "]" -/
+def stObjToString (s : St) : Val := .str ([91, 111, 98, 106, 101, 99, 116, 32] ++ s.cls ++ [93])
+
 /-- reading `length`: an object value is converted (ToUint32 runs its valueOf) and the primitive remembered -/
 def scriptedLenRead (getLen : Obj → Val) (conv : Val → M St Val) : M St Unit := fun s =>
   match getLen s.o with
@@ -1141,6 +1178,9 @@ def modelOps (E : Env) : Ops St where
   conv := scriptedConv (objectPut E) objectDelete (fun o => toUint32 E (objGet o .length))
   thisRaw := fun s => s.thisRaw
   locale := scriptedLocale (objectPut E) objectDelete (fun o => toUint32 E (objGet o .length)) E
+  joinGet := scriptedJoinGet
+  userJoin := fun args => scriptedPlay (objectPut E) objectDelete (fun o => toUint32 E (objGet o .length)) (joinEntry args)
+  objToString := stObjToString
 
 /-- `a[k] = v` / Object.defineProperty(a, k, {value: v, …}) when v may be a scripted object: only the length of an
     array converts its value — for an object `newLength = toUint32(v)` and then `float64(newLength) != v.float64()`
